@@ -122,9 +122,10 @@ func classifyRead(r io.ReadCloser, status int, err error) string {
 	if err != nil {
 		if rr, ok := err.(*pmtiles.RefreshRequiredError); ok {
 			_ = rr
-			return fmt.Sprintf("refresh %d", status)
+			_ = status // which status code accompanies the error is not part of the property: the class is
+			return "refresh"
 		}
-		return fmt.Sprintf("err %d", status)
+		return "err"
 	}
 	b, rerr := io.ReadAll(r)
 	r.Close()
